@@ -26,7 +26,7 @@ func TestAAAWitnesses(t *testing.T) { vk.TestWitnesses(t, property) }
 func TestReplay(t *testing.T)       { vk.TestReplay(t) }
 
 type Step struct {
-	Op string // set | del | destroy | regen | reset | idle (SetIdleTimeout)
+	Op string // set | del | destroy | regen | reset | idle (SetIdleTimeout) | save (explicit Save mid-handler)
 	K  string `json:",omitempty"`
 	V  string `json:",omitempty"`
 	N  int    `json:",omitempty"` // idle: seconds
@@ -84,6 +84,7 @@ func check(c Case) vk.Verdict {
 	var script []Step
 	var doSave bool
 	var seenID, afterID string
+	var stepIDs []string // session id after each script step
 	var seenData map[string]string
 	var destroyed bool
 	var handlerErr string
@@ -99,6 +100,7 @@ func check(c Case) vk.Verdict {
 			}
 		}
 		destroyed = false
+		stepIDs = stepIDs[:0]
 		for _, s := range script {
 			switch s.Op {
 			case "set":
@@ -115,7 +117,13 @@ func check(c Case) vk.Verdict {
 				}
 			case "idle":
 				sess.SetIdleTimeout(time.Duration(s.N) * time.Second)
+			case "save":
+				// explicit Save in the middle of the script (a no-op for the middleware's own session)
+				if err := sess.Save(); err != nil {
+					handlerErr = err.Error()
+				}
 			}
+			stepIDs = append(stepIDs, sess.ID())
 		}
 		afterID = sess.ID()
 	}
@@ -183,7 +191,7 @@ func check(c Case) vk.Verdict {
 		return r
 	}
 	v := vk.Verdict{Classes: []string{"api:" + c.API, "source:" + c.Source, "storage:" + c.Storage}}
-	staleUsed, forgedUsed := false, false
+	staleUsed, forgedUsed, midSaveThenRotate := false, false, false
 	for i, op := range c.Ops {
 		switch op.Kind {
 		case "adv":
@@ -313,42 +321,55 @@ func check(c Case) vk.Verdict {
 		}
 		curID := seenID
 		idle := uint32(c.Idle)
-		for _, s := range op.Script {
+		midSaved := false
+		for j, s := range op.Script {
 			switch s.Op {
 			case "set":
 				cur[s.K] = s.V
 			case "del":
 				delete(cur, s.K)
-			case "regen":
+			case "regen", "reset":
 				if model[curID] != nil {
 					delete(model, curID)
 					markStale(curID)
 				}
-			case "reset":
-				if model[curID] != nil {
-					delete(model, curID)
-					markStale(curID)
+				if s.Op == "reset" {
+					cur = map[string]string{}
+					idle = uint32(c.Idle)
 				}
-				cur = map[string]string{}
-				idle = uint32(c.Idle)
+				if midSaved {
+					midSaveThenRotate = true
+				}
+				prev := curID
+				if j < len(stepIDs) {
+					curID = stepIDs[j]
+				} else {
+					curID = ""
+				}
+				if !issued[curID] || curID == present || curID == prev || model[curID] != nil {
+					return vk.Failf("%s: after step %d (%s) the session id is %q (was %q), want a new server-generated id", ctx, j, s.Op, curID, prev)
+				}
 			case "idle":
 				idle = uint32(s.N)
+			case "save":
+				// an explicit Save() in the middle of the handler: persists the data under the current id
+				// (the middleware's own session ignores it and saves once, after the handler)
+				if c.API == "store" {
+					snap := map[string]string{}
+					for k, x := range cur {
+						snap[k] = x
+					}
+					model[curID] = &rec{data: snap, exp: now() + idle}
+					midSaved = true
+				}
 			case "destroy":
 				if model[curID] != nil {
 					delete(model, curID)
 					markStale(curID)
 				}
 			}
-			if s.Op == "regen" || s.Op == "reset" {
-				curID = "" // a new id; learnt from afterID below
-			}
 		}
-		if curID == "" {
-			curID = afterID
-			if !issued[curID] || curID == present || curID == seenID {
-				return vk.Failf("%s: after regenerate/reset the session id is %q (was %q), want a new server-generated id", ctx, curID, seenID)
-			}
-		} else if afterID != curID && !destroyed {
+		if afterID != curID && !destroyed {
 			return vk.Failf("%s: session id changed from %q to %q without regenerate/reset", ctx, curID, afterID)
 		}
 		saved := !destroyed && (c.API == "middleware" || op.Save)
@@ -384,10 +405,12 @@ func check(c Case) vk.Verdict {
 				return vk.Failf("%s: the session was destroyed but the response still sets the cookie to %q", ctx, emitted)
 			}
 			cred[op.Client] = ""
+		} else if midSaved && emitted != "" && emitted != "(expired)" {
+			cred[op.Client] = emitted // the client keeps whatever the response handed out
 		}
 		// storage agrees with the model for the ids this request touched (ghost state)
 		if st != nil {
-			for _, id := range []string{present, seenID, curID} {
+			for _, id := range append([]string{present, seenID, curID}, stepIDs...) {
 				if id == "" {
 					continue
 				}
@@ -398,6 +421,9 @@ func check(c Case) vk.Verdict {
 		}
 	}
 	v.NonTrivial = staleUsed || forgedUsed
+	if midSaveThenRotate {
+		v.Classes = append(v.Classes, "save-then-regenerate-or-reset")
+	}
 	if staleUsed {
 		v.Classes = append(v.Classes, "stale-id-presented")
 	}
@@ -425,7 +451,7 @@ func genCase(t *rapid.T) Case {
 				Save: rapid.IntRange(0, 3).Draw(t, "save") != 0}
 			ns := rapid.IntRange(0, 3).Draw(t, "ns")
 			for j := 0; j < ns; j++ {
-				s := Step{Op: rapid.SampledFrom([]string{"set", "set", "set", "del", "regen", "reset", "destroy", "idle"}).Draw(t, "op"),
+				s := Step{Op: rapid.SampledFrom([]string{"set", "set", "set", "del", "regen", "reset", "destroy", "idle", "save", "save"}).Draw(t, "op"),
 					K: rapid.SampledFrom([]string{"a", "b", "c"}).Draw(t, "k"), V: fmt.Sprintf("v%d_%d", i, j), N: rapid.SampledFrom([]int{1, 3, 30}).Draw(t, "idleN")}
 				op.Script = append(op.Script, s)
 				if s.Op == "destroy" {
